@@ -243,6 +243,7 @@ pub mod raw {
             }
             "ed_is_small_order_c" => out.push(vp_ed_is_small_order(&crate::edwards::CompressedEdwardsY(rd::<B32>(a[0])).decompress().expect("replay point decodes")) as u8),
             "g_mont_from_base_clamped" => wr(&vp_g_ed_mul_base_clamped(&rd::<B32>(a[0])).to_montgomery().0, out),
+            "sc_naf" => { let d = scalar_raw(rd::<B32>(a[0])).non_adjacent_form(a[1][0] as usize); out.extend(d.iter().map(|x| *x as u8)) }
             "g_ed_mul_clamped" => wr(&vp_g_ed_mul_clamped(&crate::edwards::CompressedEdwardsY(rd::<B32>(a[0])).decompress().expect("replay point decodes"), &rd::<B32>(a[1])).compress().0, out),
             "g_ed_mul_base_clamped" => wr(&vp_g_ed_mul_base_clamped(&rd::<B32>(a[0])).compress().0, out),
             "g_mont_mul" => wr(&vp_g_mont_mul(&MontgomeryPoint(rd::<B32>(a[0])), &scalar_raw(rd::<B32>(a[1]))).0, out),
